@@ -80,14 +80,17 @@ def judge(ctx, g, prune, o):
             continue
         exp = z[s] if cond[s] else Fr(0)
         if abs(Fr(S.prob_min_rew[s]) - exp) > TOL:
-            res_ok = z_residual(S, chain, reach) <= THR * (1 + Fr(1, 1000))
+            # listed finding = residual stop: the report is consistent with the chain equations up to the threshold
+            # AND approaches the exact vector from below (never above it, never above 1)
+            res_ok = z_residual(S, chain, reach) <= THR * (1 + Fr(1, 1000)) and \
+                all(Fr(S.prob_min_rew[t]) <= (z[t] if cond[t] or t in S.finals else Fr(0)) + Fr(1, 10 ** 9) for t in reach)
             ctx.violation("prob-under-min-reward", inp,
                           {"state": s, "reported": S.prob_min_rew[s], "expected": exp,
                            "final_strategies": S.final_strat}, key=KEY_TOL if res_ok else None)
             return nontriv
     if prune and abs(Fr(S.prob_min_rew[0]) - 1) > TOL:
         ctx.violation("prob-from-initial-is-1", inp, {"reported": S.prob_min_rew[0]},
-                      key=KEY_TOL if z_residual(S, chain, reach) <= THR * (1 + Fr(1, 1000)) else None)
+                      key=KEY_TOL if (z_residual(S, chain, reach) <= THR * (1 + Fr(1, 1000)) and Fr(S.prob_min_rew[0]) <= 1) else None)
         return nontriv
     # rewards when P1 follows its final strategy and P2 its reachability strategy (cheapest)
     p2_states = [s for s in range(S.n) if S.players[s] == P2 and cond[s]]
@@ -115,7 +118,8 @@ def judge(ctx, g, prune, o):
         exp = best[s]
         # a Player-2 state whose reachability strategy names no permitted action reports 0
         if abs(Fr(S.rew_min_reach[s]) - exp) > TOL * scale:
-            res_ok = w_residual(S, chain, cond, reach, g["rewards"]) <= THR * (1 + Fr(1, 1000)) + Fr(1, 10 ** 10) * scale
+            res_ok = w_residual(S, chain, cond, reach, g["rewards"]) <= THR * (1 + Fr(1, 1000)) + Fr(1, 10 ** 10) * scale and \
+                all(best[t] is None or Fr(S.rew_min_reach[t]) <= best[t] + Fr(1, 10 ** 9) * scale for t in reach)
             ctx.violation("reward-under-min-reach", inp,
                           {"state": s, "reported": S.rew_min_reach[s], "expected": exp,
                            "final_strategies": S.final_strat, "reach_strategies": S.reach_strat},
@@ -160,6 +164,9 @@ def run(ctx, model=None):
         check_case(ctx, gen.with_huge_rewards(gen.layered_tie_game(rng)), model)
         check_case(ctx, gen.with_empty_action(gen.layered_tie_game(rng), rng), model)
         check_case(ctx, gen.integer_game(rng), None)
+        h_ = gen.stopping_game(rng, n_inner=rng.randint(2, 5)) if k % 2 else gen.layered_tie_game(rng)
+        h_["final_states"] = h_["final_states"] * 2 + h_["final_states"]       # the same final state listed three times
+        check_case(ctx, h_, model)
     through_run_games(ctx, rng, 12 if ctx.quick() else 300)
     import analysis as _an0
     _an0.optimized_interpreter(ctx, [gen.layered_tie_game(rng) for _ in range(6)] + [gen.stopping_game(rng, dead_frac=0.3) for _ in range(6)],
@@ -182,8 +189,11 @@ def through_run_games(ctx, rng, count):
         g = gen.layered_tie_game(rng) if k % 2 else gen.stopping_game(rng, n_inner=rng.randint(2, 5))
         name = rng.choice(["t", "board_3", "case_no_prune", "x_no_prune"])
         try:
+            d_ = gen.desc(g)
+            if k % 3 == 2:
+                d_["prune_states"] = (k % 2 == 0)      # a description that was also used as StochasticGame(**g) kwargs
             with quiet(), time_limit(30.0):
-                res = cr.run_games({name: gen.desc(g)})
+                res = cr.run_games({name: d_})
         except Timeout:
             ctx.count("timeout")
             continue
